@@ -103,6 +103,44 @@ fn main() {
             }
             println!("{} of 20 seeds returned a path whose last state the checker rejects", bad);
         }
+        "c06_so3" => {
+            use oxmpl::base::space::SO3StateSpace;
+            use oxmpl::base::state::SO3State;
+            let sp = SO3StateSpace::new(Some((SO3State::identity(), 1e-4))).unwrap();
+            let (tx, rx) = std::sync::mpsc::channel();
+            std::thread::spawn(move || { let mut rng = rand::rng(); let r = sp.sample_uniform(&mut rng); let _ = tx.send(r.is_ok()); });
+            match rx.recv_timeout(Duration::from_secs(5)) {
+                Ok(ok) => println!("sample_uniform returned ok={}", ok),
+                Err(_) => println!("sample_uniform on a 1e-4 rad cone did not return within 5 s (rejection loop without bound or deadline)"),
+            }
+            std::process::exit(0);
+        }
+        "c08_empty_start" => {
+            let (space, pd0) = mk((1.0, 5.0));
+            let pd = Arc::new(ProblemDefinition { space: space.clone(), start_states: vec![], goal: pd0.goal.clone() });
+            let mut p = RRT::new(0.5, 0.0, &PlannerConfig { seed: Some(1) });
+            let r = std::panic::catch_unwind(std::panic::AssertUnwindSafe(|| p.setup(pd.clone(), free())));
+            println!("RRT::setup with an empty start list panicked={}", r.is_err());
+            let mut q = PRM::new(0.05, 1.0, &PlannerConfig { seed: Some(1) });
+            q.setup(pd.clone(), free());
+            q.construct_roadmap().unwrap();
+            let r = std::panic::catch_unwind(std::panic::AssertUnwindSafe(|| q.solve(Duration::from_secs(1)).is_ok()));
+            println!("PRM::solve with an empty start list panicked={}", r.is_err());
+        }
+        "c08_sampler" => {
+            // unbounded space: sample_uniform returns Err(UnboundedDimension)
+            let space = Arc::new(RealVectorStateSpace::new(2, None).unwrap());
+            let goal = Arc::new(CircGoal { target: RealVectorState { values: vec![9.0, 5.0] }, radius: 0.5, space: space.clone() });
+            let pd = Arc::new(ProblemDefinition { space: space.clone(), start_states: vec![RealVectorState { values: vec![1.0, 5.0] }], goal });
+            let mut p = RRT::new(0.5, 0.0, &PlannerConfig { seed: Some(1) });
+            p.setup(pd.clone(), free());
+            let r = std::panic::catch_unwind(std::panic::AssertUnwindSafe(|| p.solve(Duration::from_secs(1)).is_ok()));
+            println!("RRT::solve with a failing uniform sampler panicked={}", r.is_err());
+            let mut q = PRM::new(0.05, 1.0, &PlannerConfig { seed: Some(1) });
+            q.setup(pd.clone(), free());
+            let r = std::panic::catch_unwind(std::panic::AssertUnwindSafe(|| q.construct_roadmap().is_ok()));
+            println!("PRM::construct_roadmap with a failing uniform sampler panicked={}", r.is_err());
+        }
         "c11_so2" => {
             let sp = SO2StateSpace::new(None).unwrap();
             let mut s = SO2State { value: 4.71 };
